@@ -15,7 +15,7 @@ if TYPE_CHECKING:
 from exabgp.bgp.message.update.attribute.attribute import Attribute
 from exabgp.bgp.message.notification import Notify
 
-from exabgp.util import hexstring
+from exabgp.util import hexstring, json_members
 from exabgp.util.types import Buffer
 
 # =====================================================================
@@ -80,7 +80,8 @@ class PrefixSid(Attribute):
         return cls(sr_attrs=sr_attrs, packed=original)
 
     def json(self, compact: bool | None = None) -> str:
-        content: str = ', '.join(d.json() for d in self.sr_attrs)
+        # a TLV sent twice is listed under its key, not given the same key twice
+        content: str = json_members(d.json() for d in self.sr_attrs)
         return f'{{ {content} }}'
 
     def __str__(self) -> str:
